@@ -5,6 +5,7 @@ import (
 	"fmt"
 	"io"
 	"reflect"
+	"sort"
 	"strings"
 
 	"github.com/alecthomas/participle/v2/lexer"
@@ -135,6 +136,18 @@ func Build[G any](options ...Option) (parser *Parser[G], err error) {
 	}
 	if err := validate(rootNode); err != nil {
 		return nil, err
+	}
+	// Productions the root does not reach (members of a union it never uses) can still be
+	// parsed through ParserForProduction: validate them too, in a stable order.
+	unreached := make([]reflect.Type, 0, len(context.typeNodes))
+	for t := range context.typeNodes {
+		unreached = append(unreached, t)
+	}
+	sort.Slice(unreached, func(i, j int) bool { return unreached[i].String() < unreached[j].String() })
+	for _, t := range unreached {
+		if err := validate(context.typeNodes[t]); err != nil {
+			return nil, err
+		}
 	}
 	p.typeNodes = context.typeNodes
 	p.typeNodes[p.rootType] = rootNode
